@@ -146,6 +146,68 @@ pub fn check(case: &Case, idx: u64, acc: &mut Acc) {
             }
         }
     }
+    // the vector route PPSpline::bspldnev agrees bit for bit with the single-point route whatever the order of the points
+    {
+        let sp = rateslib::splines::PPSpline::<f64>::new(k, t.clone(), None);
+        let xs_sorted: Vec<f64> = pts.iter().map(|p| p.f()).collect();
+        let np = xs_sorted.len();
+        let mut orders: Vec<Vec<f64>> = vec![xs_sorted.clone(), xs_sorted.iter().rev().cloned().collect()];
+        let mut scr: Vec<f64> = (0..np).map(|j| xs_sorted[(j * 7 + 3) % np]).collect();
+        scr.extend(xs_sorted.iter().take(3).cloned()); // repeats
+        orders.push(scr);
+        for (oi, xs) in orders.iter().enumerate() {
+            for i in 0..n {
+                for m in 0..k.min(3) {
+                    acc.eval();
+                    let v = sp.bspldnev(xs, &i, &m);
+                    let bad = v.len() != xs.len() || xs.iter().zip(v.iter()).any(|(x, g)| {
+                        let w = bspldnev_single_f64(x, i, &k, &t, m, None);
+                        g.to_bits() != w.to_bits() && *g != w
+                    });
+                    if bad {
+                        acc.violate("vector-route/differs-from-single-point", idx, cj(), json!({"i": i, "m": m, "point_order": (["ascending", "descending", "scrambled with repeats"])[oi]}), json!(v));
+                        break;
+                    }
+                }
+            }
+        }
+    }
+    // translation: knots and abscissa shifted by an exactly representable amount give bit-identical values and
+    // derivatives; shifts that put a knot (the right end point, an interior knot, the left end point) exactly at zero
+    // are evaluated with both signs of zero for the abscissa and for the stored knot
+    for shift in [-4.0_f64, -1.5, -3.0, 0.0 - t[0], 1024.0] {
+        for neg_zero_knots in [false, true] {
+            let ts: Vec<f64> = t.iter().map(|v| { let y = v + shift; if y == 0.0 { if neg_zero_knots { -0.0 } else { 0.0 } } else { y } }).collect();
+            if !neg_zero_knots && !ts.iter().any(|v| *v == 0.0) && shift != 1024.0 {
+                continue;
+            }
+            if neg_zero_knots && !ts.iter().any(|v| *v == 0.0) {
+                continue;
+            }
+            for x in pts.iter() {
+                let xf = x.f();
+                let xs0 = xf + shift;
+                let variants: Vec<f64> = if xs0 == 0.0 { vec![0.0, -0.0] } else { vec![xs0] };
+                for xs in variants {
+                    for i in 0..n {
+                        acc.evals_add(2);
+                        let (v, vs) = (bsplev_single_f64(&xf, i, &k, &t, None), bsplev_single_f64(&xs, i, &k, &ts, None));
+                        if v != vs {
+                            acc.violate("translation/value", idx, cj(), json!({"x": xf, "i": i, "shift": shift, "abscissa": format!("{:?}", xs), "negative_zero_knots": neg_zero_knots, "want": v}), json!(vs));
+                            return;
+                        }
+                        if k >= 2 {
+                            let (d, ds) = (bspldnev_single_f64(&xf, i, &k, &t, 1, None), bspldnev_single_f64(&xs, i, &k, &ts, 1, None));
+                            if d != ds {
+                                acc.violate("translation/derivative", idx, cj(), json!({"x": xf, "i": i, "shift": shift, "abscissa": format!("{:?}", xs), "negative_zero_knots": neg_zero_knots, "want": d}), json!(ds));
+                                return;
+                            }
+                        }
+                    }
+                }
+            }
+        }
+    }
     // just outside the domain every function is zero
     for xf in [t[0] - 0.25, t[t.len() - 1] + 0.25] {
         for i in 0..n {
@@ -190,7 +252,7 @@ pub fn run(ctx: &Ctx, replay_file: Option<String>) -> ! {
          i128 rational coefficients, symbolic derivatives, right limit, left limit at the right end point): value >= 0 \
          with no tolerance, exactly 0 outside [t_i, t_{i+k}], sum = 1 to 1e-12, m-th derivative equal to the model's, \
          exactly 0 for m >= k; the dual-abscissa variants (bsplev/bspldnev_single_dual, _dual2) return the same \
-         value with the next one / two derivatives as first / second order sensitivities. Scale invariance: every knot vector and abscissa multiplied by 2^e, e in {-80,-60,-54,-53,-30,40}, gives bit-identical values and exactly rescaled first derivatives. Long knot vectors: orders 1..5 with 7, 8, 15, 16, 17, 31, 32, 33, 64 interior knots at half-integer positions (middle knot doubled). The model itself is checked to be a partition of unity at every point. Non-trivial: \
+         value with the next one / two derivatives as first / second order sensitivities. Scale invariance: every knot vector and abscissa multiplied by 2^e, e in {-80,-60,-54,-53,-30,40}, gives bit-identical values and exactly rescaled first derivatives. Translation: every knot vector and abscissa shifted by -4, -3, -1.5, -t0 and 1024 (exact) gives identical values and first derivatives, with both signs of zero tried for an abscissa and for a stored knot that lands on zero. Vector route: PPSpline::bspldnev on ascending, descending and scrambled-with-repeats point vectors equals the single-point route. Long knot vectors: orders 1..5 with 7, 8, 15, 16, 17, 31, 32, 33, 64 interior knots at half-integer positions (middle knot doubled). The model itself is checked to be a partition of unity at every point. Non-trivial: \
          evaluations exactly at a knot where the function is non-zero.",
         json!({"max_order": ctx.tier.pick(6, 7), "knot_vectors": cs.len()}),
     )
